@@ -327,16 +327,16 @@ def evalWith (es : List SExp) (rdFuel : Nat) (ownTree : Option Op) : String :=
                -- `(dencheck)`: also evaluate with the compositional semantics of Sq/Denote.lean and say whether it
                -- gives the same report (`same`), has no verdict within the fuel (`nofuel`) or differs (`DIFF` —
                -- impossible by SqLemmas/DenoteSound.lean; the harness counts the three)
-               match field? "dencheck" es, astNames with
-               | some _, [] =>
+               match field? "dencheck" es with
+               | some _ =>
                  let w0 : World := { w with vms := w.vms ++ [{ scopes := [namesAddr], ops := 0 }] }
-                 let tag := match Den.evalOp [budget] denFuel ast 0 w0 with
+                 let tag := match Den.evalAst [budget] denFuel astNames ast 0 w0 with
                    | none => "nofuel"
                    | some (o, w') =>
                      let ctl : Ctl := match o with | .ret v => .done v | .raise e => .failed e
                      if render { ctl := ctl, k := [], w := w', budgets := [budget] } == line then "same" else "DIFF"
                  line ++ " ;; den=" ++ tag
-               | _, _ => line)
+               | none => line)
         | _ => "bad-names")
      | _, _, _ => "bad-fields")
   | _, _, _, _ => "bad-eval"
